@@ -358,6 +358,22 @@ pub fn scalar_int_zoo(r: &B) -> Vec<Tagged> {
         }
         j += 1;
     }
+    // ... and for left-to-right ladders / prefix-based methods: integers one of whose binary prefixes is
+    // c*r + delta (delta in -2..=2): the running multiple then is 0, +-P, +-2P (possibly shifted by the
+    // 2-torsion point when the base has curve order 2r) right before an addition of P or a doubling
+    for c in 1u64..=3 {
+        for delta in [-2i64, -1, 0, 1, 2] {
+            let base = if delta < 0 { r * b(c) - b((-delta) as u64) } else { r * b(c) + b(delta as u64) };
+            for j in [0usize, 1, 2, 5, 64, 130] {
+                let hi = &base << j;
+                z.push((hi.clone(), "ladder-collision"));
+                if j > 0 {
+                    z.push((&hi + ((b(1) << j) - b(1)), "ladder-collision"));
+                    z.push((&hi + (b(0x5DEECE66D) & ((b(1) << j) - b(1))), "ladder-collision"));
+                }
+            }
+        }
+    }
     z
 }
 
